@@ -12,10 +12,12 @@ import json
 from aw_transform import heartbeat_merge, heartbeat_reduce
 from mc.core import Agg, Unit
 from mc.drivers import stores as S
+from datetime import timedelta
+
 from mc.lattice import Emb, chunked
 
 BOUNDS = {
-    "quick": {"max_len": 4, "lattice": "0..5", "labels": 2, "pulsetimes_units": [0, 1], "units_us": [1_000_000], "sub_second": "all streams of <=3 heartbeats on 0..4 at 1 ms and 100 ms units", "noise": "all streams of 2-3 heartbeats on 0..4 x every sequence of {read other bucket, rejected delete / update of a missing bucket, delete of the oldest event of the heartbeat bucket} between the heartbeats"},
+    "quick": {"max_len": 4, "lattice": "0..5", "labels": 2, "pulsetimes_units": [0, 1], "units_us": [1_000_000], "sub_second": "all streams of <=3 heartbeats on 0..4 at 1 ms, 100 ms and 12 h units", "microsecond_durations": "2-5 heartbeats 1 ms apart with durations of k us exactly at end + pulsetime", "noise": "all streams of 2-3 heartbeats on 0..4 x every sequence of {read other bucket, rejected delete / update of a missing bucket, delete of the oldest event of the heartbeat bucket} between the heartbeats"},
     "thorough": {"max_len": 5, "lattice": "0..6", "labels": 2, "pulsetimes_units": [0, 0.5, 1, 2], "units_us": [1_000_000, 1_000]},
 }
 RULE = (
@@ -227,7 +229,47 @@ def _unit_noise(args):
     return u.result()
 
 
+def _unit_usdur(backend):
+    """heartbeats 1 ms apart whose durations are k microseconds, pulsetime (1000 - k) us: every heartbeat
+    sits EXACTLY at end + pulsetime of the merged event, whose duration is microsecond-granular
+    (a seeded 10 us quantisation of stored durations broke the merge)"""
+    ctx = _G["ctx"]
+    labs = _G["labs"]
+    u = Unit()
+    emb = Emb(ctx.base, 1_000)
+    ds, other0 = _setup(backend, ctx.wdir(), emb, 4)
+    for k in (1, 3, 7, 14, 999):
+        for n in (2, 3, 4, 5):
+            for labels in ((0,) * n, (0, 0, 1, 1, 0)[:n]):
+                if "hb" in ds.buckets():
+                    ds.delete_bucket("hb")
+                S.mk_bucket(ds, "hb")
+                b = ds["hb"]
+                p = (1000 - k) / 1_000_000
+
+                def mk(i):
+                    from aw_core.models import Event as _E
+
+                    return _E(timestamp=emb.t(i), duration=timedelta(microseconds=k), data={"label": labs[labels[i]]})
+
+                for i in range(n):
+                    ingest(b, mk(i), p)
+                    u.transitions += 1
+                    u.evaluations += 1
+                got = sorted(t[1:] for t in S.dump_bucket(ds, "hb"))
+                want = sorted(_content(e) for e in heartbeat_reduce([mk(i) for i in range(n)], p))
+                u.states += 1
+                u.nontrivial += 1
+                u.traces += 1
+                if got != want:
+                    u.violation(f"{backend}:bucket-differs-from-reduce:microsecond-durations", f"{backend}: {n} heartbeats 1 ms apart with durations {k} us, labels {labels}, pulsetime {1000 - k} us: bucket {got} != heartbeat_reduce {want}", {"backend": backend, "kind": "usdur", "k": k, "n": n}, size=n)
+    S.close_all()
+    return u.result()
+
+
 def _dispatch(x):
+    if x[0] == "usdur":
+        return _unit_usdur(x[1])
     return _unit_noise(x[1]) if x[0] == "noise" else _unit(x[1])
 
 
@@ -292,6 +334,10 @@ def run(ctx):
         for ch in chunked(ms_streams, ctx.workers):
             units.append(("plain", (backend, 1_000, 4, ch, (0, 1))))
             units.append(("plain", (backend, 100_000, 4, ch, (1,))))
+            # 12 h lattice: merged events grow past 24 h (a seeded integer rewrite forgot duration.days)
+            units.append(("plain", (backend, 43_200_000_000, 4, ch, (1,))))
+    for backend in S.BACKENDS:
+        units.append(("usdur", backend))
     # phase 3: every sequence of noise operations (reads of / rejected operations on other buckets) between heartbeats
     nstreams = sorted({s[:k] for s in streams(4 if not ctx.thorough else 5, 3) for k in (2, 3) if len(s) >= k})
     for backend in S.BACKENDS:
@@ -316,6 +362,9 @@ def run(ctx):
 def run_case(ctx, case):
     _G["ctx"] = ctx
     _G["labs"] = (ctx.labels[0], ctx.labels[1])
+    if case.get("kind") == "usdur":
+        r = _unit_usdur(case["backend"])
+        return {"violations": [[v["key"], v["what"]] for v in r["violations"]]}
     emb = Emb(ctx.base, case["unit_us"])
     u = Unit()
     ds, other0 = _setup(case["backend"], ctx.wdir(), emb, case["N"])
